@@ -159,7 +159,7 @@ def Worker.knows (w : Worker) (a : Addr) : Prop :=
 def Worker.okRecv (w : Worker) : Msg → Prop
   | .submit t => t.fresh ∧ ¬ w.knows t.addr
   | .batch ts => (ts.map (·.addr)).Nodup ∧ ∀ t ∈ ts, t.fresh ∧ ¬ w.knows t.addr
-  | .result a _ _ => ∀ b, boxGet w.boxes a.m = some b → b.ready = false
+  | .result a _ _ => a.w = w.id → ∀ b, boxGet w.boxes a.m = some b → b.ready = false
   | _ => True
 
 theorem mem_addrs {w : Worker} {t : Task} (h : t ∈ w.tasks) : t.addr ∈ w.addrs :=
@@ -407,7 +407,7 @@ theorem deposit_ready (b : Box) (s : Nat) (v : Val) (h : b.ready = true) : (b.de
 
 /-- `_handle_result`, when the mailbox is not complete yet -/
 theorem handleResult_winv {ex} (w : Worker) (a : Addr) (v : Val) (h : WInv ex w)
-    (hok : ∀ b, boxGet w.boxes a.m = some b → b.ready = false) :
+    (hok : a.w = w.id → ∀ b, boxGet w.boxes a.m = some b → b.ready = false) :
     WInv ex (w.handleResult a v) ∧ (w.handleResult a v).inDead = (w.inDead || decide (a.w ≠ w.id)) := by
   unfold Worker.handleResult
   split
@@ -418,7 +418,7 @@ theorem handleResult_winv {ex} (w : Worker) (a : Addr) (v : Val) (h : WInv ex w)
     split
     · exact ⟨h, by simp [hid]⟩
     · rename_i b hb
-      have hnr := hok b hb
+      have hnr := hok (by simpa using hne) b hb
       have base : ∀ (b' : Box) (push : List Addr), WInv ex { w with boxes := boxSet w.boxes a.m b', ready := w.ready ++ push } →
           WInv ex { w with boxes := boxSet w.boxes a.m b', ready := w.ready ++ push } := fun _ _ x => x
       dsimp only
@@ -1135,7 +1135,7 @@ theorem completionEnter_winv (r : Run) (v : Val) (hr : RInv r)
     have hnd := hr.nodest r.w.boxes r.w.counter hr.inv
     have e := handleResult_eraseTask r.w r.t.addr v r.t.addr
       (fun b hb => hnd _ b hb (hE hloc b hb))
-    have := (handleResult_winv _ r.t.addr v hr.erased (hE hloc)).1
+    have := (handleResult_winv _ r.t.addr v hr.erased (fun _ => hE hloc)).1
     rw [e] at this
     exact this
   · exact hr.erased
@@ -1399,7 +1399,7 @@ def Worker.knowsB (w : Worker) (a : Addr) : Bool :=
 def Worker.okRecvB (w : Worker) : Msg → Bool
   | .submit t => t.freshB && !w.knowsB t.addr
   | .batch ts => decide ((ts.map (·.addr)).Nodup) && ts.all (fun t => t.freshB && !w.knowsB t.addr)
-  | .result a _ _ => match boxGet w.boxes a.m with
+  | .result a _ _ => decide (a.w ≠ w.id) || match boxGet w.boxes a.m with
     | some b => !b.ready
     | none => true
   | _ => true
@@ -1430,9 +1430,11 @@ theorem okRecvB_sound (w : Worker) (m : Msg) (h : w.okRecvB m = true) : w.okRecv
     simp only [Worker.okRecvB, Bool.and_eq_true, decide_eq_true_eq, List.all_eq_true, Bool.not_eq_true'] at h
     exact ⟨h.1, fun t ht => ⟨freshB_sound t (h.2 t ht).1, knowsB_sound w _ (h.2 t ht).2⟩⟩
   | result a v by_ =>
-    intro b hb
-    simp only [Worker.okRecvB, hb, Bool.not_eq_true'] at h
-    exact h
+    intro ha b hb
+    simp only [Worker.okRecvB, hb, Bool.not_eq_true', Bool.or_eq_true, decide_eq_true_eq] at h
+    rcases h with h | h
+    · exact absurd ha h
+    · exact h
   | _ => trivial
 
 theorem okRunB_sound (tbl : Table) (w : Worker) (ops : List WOp) (h : Worker.okRunB tbl w ops = true) :
